@@ -28,7 +28,7 @@ ProbesH == UNION {Forms(d, d, <<>>) : d \in ToSet(LitD) \cup {"api.example.com",
            \cup Forms("7q8.b.com", "{sub:\\w+}.b.com", [sub |-> "7q8"]) \cup Forms("77.c.com", "{n:digit}.c.com", [n |-> "77"])
            \cup {HM("[v6].example.com", "{sub}.example.com", [sub |-> "[v6]"]), HM("[::1]", "::1", <<>>), HM("[::1]:80", "::1", <<>>), HM("[::1]:65536", "::1", <<>>), HM("::1", "", <<>>), HM("[::1]:8x", "", <<>>), HM("[::1]8080", "", <<>>), HM("[::1]:80:90", "", <<>>),
                  HM("[a.example.com]:80", "a.example.com", <<>>), HM("[7q.example.com]", "{sub}.example.com", [sub |-> "7q"]), HM("[a.example.com]x", "", <<>>), HM("a.example.com]", "", <<>>), HM("7.q.b.com", "", <<>>), HM("7q.c.com", "", <<>>),
-                 HM("", "", <<>>), HM("*", "", <<>>), HM("example.com", "", <<>>), HM(".example.com", "", <<>>), HM("zz.example.com.", "", <<>>)}
+                 HM("", "", <<>>), HM(":8080", "", <<>>), HM(":", "", <<>>), HM("ab.example.com", "{sub}.example.com", [sub |-> "ab"]), HM("*", "", <<>>), HM("example.com", "", <<>>), HM(".example.com", "", <<>>), HM("zz.example.com.", "", <<>>)}
 
 \* ---------------------------------------------------------------- C15
 VerPool == {"v1", "v11", "/v1", "v1/", "/v2/", "v/1"}
